@@ -84,6 +84,39 @@ func (s *State) learn(c *BoolVal) {
 	s.subst[an] = b
 }
 
+// prefixEqualities spells the condition HasPrefix(s, p) out as element
+// equalities when the elements of both slices are known values.
+func (e *Engine) prefixEqualities(st *State, c *BoolVal) []*BoolVal {
+	sl, _ := c.A.(*SliceVal)
+	pf, _ := c.B.(*SliceVal)
+	if sl == nil || pf == nil || sl.Arr == nil {
+		return nil
+	}
+	ps, ok := e.sliceElems(st, pf)
+	if !ok {
+		return nil
+	}
+	head := *sl
+	head.Len = formInt(int64(len(ps)))
+	if n, isC := sl.Len.ConstInt(); !isC || n < int64(len(ps)) {
+		return nil
+	}
+	ss, ok := e.sliceElems(st, &head)
+	if !ok || len(ss) != len(ps) {
+		return nil
+	}
+	var out []*BoolVal
+	for i := range ps {
+		a, okA := ss[i].(*Form)
+		b, okB := ps[i].(*Form)
+		if !okA || !okB {
+			return nil
+		}
+		out = append(out, &BoolVal{Op: "==", A: a, B: b})
+	}
+	return out
+}
+
 // resolve applies the learnt equalities to a form.
 func (s *State) resolve(f *Form) *Form {
 	if len(s.subst) == 0 || f == nil {
@@ -824,6 +857,13 @@ func (e *Engine) exec(st *State, fr *frame, b, pred *ssa.BasicBlock, idx, depth 
 				st2.conds = append(st2.conds, c.Not())
 				st.learn(c)
 				st2.learn(c.Not())
+				if c.Op == "prefix" {
+					// HasPrefix(s, p) with known elements: s[i] == p[i] for every i < len(p)
+					for _, eq := range e.prefixEqualities(st, c) {
+						st.conds = append(st.conds, eq)
+						st.learn(eq)
+					}
+				}
 				var outs []Outcome
 				if e.PruneByFacts {
 					prior := st.conds[:len(st.conds)-1]
@@ -1117,6 +1157,14 @@ func (e *Engine) evalValue(st *State, fr *frame, in ssa.Value) (Val, string) {
 							return f, ""
 						}
 					}
+				}
+			}
+		}
+		if b, ok := in.Type().Underlying().(*types.Basic); ok && b.Kind() == types.String {
+			// string(b) of a byte slice assembled from decimal renderings and constant bytes
+			if _, isSl := x.(*SliceVal); isSl {
+				if parts, ok := e.textOf(st, x, 0); ok {
+					return mergeText(parts), ""
 				}
 			}
 		}
